@@ -65,6 +65,8 @@ trunc = z3.Function("trunc", R, I)                # int(x) truncation toward zer
 re_ok = z3.Function("re_ok", S, B)                # pattern compiles
 re_search = z3.Function("re_search", S, S, B)     # re.search(p, s) is not None
 setord = z3.Function("setord", I, Obj, I, Obj)    # hashseed, set, position -> element  (C17)
+all_in = z3.Function("all_in", S, S, B)           # every character of the 1st string occurs in the 2nd
+all_in_wit = z3.Function("all_in_wit", S, S, I)
 
 _attr_funcs: Dict[str, z3.FuncDeclRef] = {}
 
@@ -295,6 +297,21 @@ def base_axioms() -> List[z3.BoolRef]:
     ]
     for e in range(0, 19):
         ax.append(pow10(z3.IntVal(e)) == 10 ** e)
+    # == between heap objects of standard data is reflexive and symmetric (identity shortcut)
+    o2 = z3.Const("o2", Obj)
+    ax.append(z3.ForAll([o], ref_eq(o, o), patterns=[ref_eq(o, o)]))
+    ax.append(z3.ForAll([o, o2], ref_eq(o, o2) == ref_eq(o2, o), patterns=[ref_eq(o, o2)]))
+    # all_in(v, a)  <=>  forall i < |v|. a contains v[i]      (definition, split into its two halves)
+    v, a = z3.Consts("av aa", S)
+    i = z3.Int("ai")
+    w = all_in_wit(v, a)
+    ax.append(z3.ForAll([v, a, i], z3.Implies(z3.And(all_in(v, a), 0 <= i, i < z3.Length(v)),
+                                             z3.Contains(a, z3.SubString(v, i, 1))),
+                        patterns=[z3.MultiPattern(all_in(v, a), z3.SubString(v, i, 1))]))
+    ax.append(z3.ForAll([v, a], z3.Implies(z3.Not(all_in(v, a)),
+                                          z3.And(0 <= w, w < z3.Length(v),
+                                                 z3.Not(z3.Contains(a, z3.SubString(v, w, 1))))),
+                        patterns=[all_in(v, a)]))
     return ax
 
 
